@@ -84,7 +84,7 @@ CHECKS.update({
 })
 
 CHECKS.update({
-    "C16": ("exploration", "conc", "runtime monitor: (a) differential run threading vs multiprocessing mode, (b) linearizability oracle over scheduler-controlled interleavings of the *_mp code paths, (c) Wing-Gong history checker over real forked worker processes, (d) fault-path equivalence between the modes",
+    "C16": ("exploration", "conc", "runtime monitor: (a) differential run threading vs multiprocessing mode, (b) linearizability oracle over scheduler-controlled interleavings of the *_mp code paths, (c) Wing-Gong history checker over real forked worker processes, (d) fault-path equivalence between the modes, (e) pause-and-race: a forked process performs its call inside each file-operation window of the parent's call, outcomes and final state compared with the sequential orders",
             "Mode equivalence is checked after every call of random sequences; the duplicated *_mp synchronisation code is explored under the cooperative scheduler with the C07/C12/C08 oracles; real forked workers contend on shared pids/cids and their recorded histories are checked for linearizability, exit status, hangs and leftover locks. Cross-process interleavings are provoked (micro-delays), not controlled.",
             "4/C16", CONC_NOTE + " Part (b) replaces multiprocessing conditions/manager lists by scheduler-owned ones; part (c) uses the real ones."),
 })
